@@ -69,20 +69,22 @@ func runC03(c *eng.Ctx) {
 		}
 	}
 	c.Check("R1", "problematic-skipped", rec.Pos(), n >= 3 && bad == 0, "nothing is planned at or below a path where either side is problematic", fmt.Sprintf("%d effect paths, %d lacking the test; e.g. %s", n, bad, sample))
-	// and the problematic arms return without effects
-	for _, r := range eng.Returns(rec) {
-		g := eng.Guards(r)
-		for _, side := range []string{"p3", "p4"} {
-			if eng.HasAtom(g, fmt.Sprintf(`^\(%s\.Kind == %d:EntryKind\)$`, side, problematic), true) {
-				eff := false
-				for _, b := range rec.Blocks {
-					if b.Dominates(r.Block()) && isEffect(b) {
-						eff = true
-					}
-				}
-				c.Check("R1", "problematic-arm:"+side, r.Pos(), !eff, "the problematic arm returns without planning anything")
+	// and the problematic arms exist and return without effects: a path that
+	// carries the fact «side is problematic» ends in a return before any effect
+	// (paths stop at the first effect, so such a path has none).
+	for _, side := range []string{"p3", "p4"} {
+		arms, withEffect := 0, 0
+		for _, p := range paths {
+			if !pathAtomEq(p, fmt.Sprintf("(%s.Kind == %d:EntryKind)", side, problematic), true) {
+				continue
+			}
+			if isEffect(p.Last()) {
+				withEffect++
+			} else {
+				arms++
 			}
 		}
+		c.Check("R1", "problematic-arm:"+side, rec.Pos(), arms > 0 && withEffect == 0, "the problematic arm returns without planning anything", fmt.Sprintf("%d returning paths, %d reaching an effect", arms, withEffect))
 	}
 	c.Floor("R1", 3)
 
